@@ -4,6 +4,17 @@ import LdkModel.Model.ChainSync
 namespace Ldk.ChainSync
 open Ldk
 
+/-- unfold the decision expressions translated from the Rust text (Generated/ChainSync.lean) into plain
+    propositions -/
+macro "gen_norm" "at" h:ident : tactic =>
+  `(tactic| simp only [tipIsCommon, tipIsBetter, fdFound, fdWalkPrevious, fdWalkCurrent, syncDisconnects, partialAdvance,
+      isGenesisHeader, initDisconnects, initTakesLonger, initDelivers, locatorHeightDiff, locatorHeight, chkSub,
+      decide_eq_true_eq, ge_iff_le, gt_iff_lt, ne_eq, decide_not, Bool.not_eq_true'] at $h:ident)
+macro "gen_norm" : tactic =>
+  `(tactic| simp only [tipIsCommon, tipIsBetter, fdFound, fdWalkPrevious, fdWalkCurrent, syncDisconnects, partialAdvance,
+      isGenesisHeader, initDisconnects, initTakesLonger, initDelivers, locatorHeightDiff, locatorHeight, chkSub,
+      decide_eq_true_eq, ge_iff_le, gt_iff_lt, ne_eq, decide_not, Bool.not_eq_true'])
+
 /-! ### tree look-up and well-formedness -/
 
 theorem hdrOf_some {t : Tree} {h : Nat} {b : Hdr} (e : hdrOf t h = some b) : b ∈ t ∧ b.hash = h := by
@@ -43,7 +54,17 @@ theorem parent_of {t : Tree} (hw : wfTree t = true) {b : Hdr} (hb : InTree t b) 
   | none => simp [e] at h2
   | some p =>
     simp only [e, Bool.and_eq_true, beq_iff_eq, decide_eq_true_eq] at h2
-    exact ⟨p, rfl, h2.1, h2.2, inTree_of_hdrOf hw e⟩
+    exact ⟨p, rfl, h2.1.1, by omega, inTree_of_hdrOf hw e⟩
+
+/-- the chainwork of a non-genesis block is its parent's plus its own (positive) work -/
+theorem parent_work {t : Tree} (hw : wfTree t = true) {b p : Hdr} (hb : InTree t b) (hh : b.height ≠ 0)
+    (e : hdrOf t b.parent = some p) : b.work = p.work + b.bwork ∧ 0 < b.bwork := by
+  have := wfBlock_of_mem hw (mem_of_inTree hb)
+  unfold wfBlock at this
+  simp only [Bool.and_eq_true, hh, if_false] at this
+  obtain ⟨_, h2⟩ := this
+  simp only [e, Bool.and_eq_true, beq_iff_eq, decide_eq_true_eq] at h2
+  exact ⟨h2.1.2, h2.2⟩
 
 theorem genesis_no_parent {t : Tree} (hw : wfTree t = true) {b : Hdr} (hb : InTree t b) (h0 : b.height = 0) :
     hdrOf t b.parent = none := by
@@ -282,6 +303,7 @@ theorem findDiffF_spec {s : Source} (hw : wfTree s.tree = true) {c : Cache} (hc 
   | succ n ih =>
     intro cur prev req d r hcur hprev e
     unfold findDiffF at e
+    gen_norm at e
     split at e
     · -- same hash: same block
       rename_i heq
@@ -530,6 +552,7 @@ theorem sync_chain {s : Source} (hw : wfTree s.tree = true) {c : Cache} (hc : Ca
     (syncTip o.res new old = old ∨ syncTip o.res new old ∈ anc s.tree new) ∧
     (syncTip o.res new old = old → o.notifs = []) := by
   unfold synchronizeListener at eo
+  simp only [syncDisconnects] at eo
   split at eo
   · subst eo
     simp [syncTip, applyNotifs, ho, hc]
@@ -586,6 +609,7 @@ theorem sync_chain {s : Source} (hw : wfTree s.tree = true) {c : Cache} (hc : Ca
 theorem pollChainTip_better {s : Source} (hw : wfTree s.tree = true) {req : Nat} {known t : Hdr} {r : Nat}
     (e : pollChainTip s req known = .ok (.better t, r)) : InTree s.tree t ∧ known.work < t.work := by
   unfold pollChainTip at e
+  gen_norm at e
   split at e
   · cases e
   · split at e
@@ -600,6 +624,7 @@ theorem pollChainTip_better {s : Source} (hw : wfTree s.tree = true) {req : Nat}
 theorem pollChainTip_worse {s : Source} {req : Nat} {known t : Hdr} {r : Nat}
     (e : pollChainTip s req known = .ok (.worse t, r)) : t.work ≤ known.work := by
   unfold pollChainTip at e
+  gen_norm at e
   split at e
   · cases e
   · split at e
@@ -609,6 +634,9 @@ theorem pollChainTip_worse {s : Source} {req : Nat} {known t : Hdr} {r : Nat}
       · split at e
         · cases e
         · rename_i hlt; cases e; omega
+
+theorem partialAdvance_eq (a b : Hdr) : partialAdvance a b = (a.hash != b.hash) := by
+  by_cases h : a.hash = b.hash <;> simp [partialAdvance, h]
 
 /-- what update_chain_tip does to the client, in terms of `syncTip` -/
 theorem update_spec {s : Source} (hw : wfTree s.tree = true) {cl : Client} (hc : CacheOk s.tree cl.cache)
@@ -622,6 +650,7 @@ theorem update_spec {s : Source} (hw : wfTree s.tree = true) {cl : Client} (hc :
     cl'.tip = syncTip (synchronizeListener s cl.cache req best cl.tip).res best cl.tip := by
   obtain ⟨g1, g2, g3, g4, g5⟩ := sync_chain hw hc hb ht _ (rfl : synchronizeListener s cl.cache req best cl.tip = _)
   unfold updateChainTip at e
+  simp only [partialAdvance_eq] at e
   generalize synchronizeListener s cl.cache req best cl.tip = o at *
   cases hres : o.res with
   | ok =>
@@ -696,6 +725,25 @@ theorem oneGenesis_eq {t : Tree} (hg : oneGenesis t = true) {a b : Hdr} (ha : a 
   have := (List.all_eq_true.mp ((List.all_eq_true.mp hg) a ha)) b hb
   simpa [ha0, hb0] using this
 
+/-- an honest answer passes check_builds_on: the tree's parent of a tree block (on a tree that obeys the
+    mainnet difficulty rules when the poller enforces them) -/
+theorem checkBuildsOn_tree {t : Tree} (hw : wfTree t = true) {bitcoin : Bool} (hd : bitcoin = true → diffRulesOk t = true)
+    {h p : Hdr} (hh : InTree t h) (h0 : h.height ≠ 0) (hp : hdrOf t h.parent = some p) :
+    checkBuildsOn bitcoin h p = true := by
+  obtain ⟨p', hp', hh1, _, _⟩ := parent_of hw hh h0
+  rw [hp] at hp'; cases hp'
+  have hph : p.hash = h.parent := (hdrOf_some hp).2
+  obtain ⟨hwk, _⟩ := parent_work hw hh h0 hp
+  have hf : checkBuildsOnErr false h p = none := by
+    simp [checkBuildsOnErr, buildsOnBadPrevHash, buildsOnBadHeight, buildsOnBadChainwork, hph, hh1.symm, hwk]
+  unfold checkBuildsOn
+  cases bitcoin with
+  | false => rw [hf]; rfl
+  | true =>
+    have := (List.all_eq_true.mp (hd rfl)) h (mem_of_inTree hh)
+    simp only [hp, hf, Option.isSome_none, Bool.or_false] at this
+    exact this
+
 theorem lookUpPrev_complete {s : Source} (hw : wfTree s.tree = true) (hs : s.Healthy) (c : Cache) (req : Nat)
     {h : Hdr} (hh : InTree s.tree h) (h0 : h.height ≠ 0) : ∃ p r, lookUpPrev s c req h = .ok (p, r) := by
   unfold lookUpPrev
@@ -704,7 +752,7 @@ theorem lookUpPrev_complete {s : Source} (hw : wfTree s.tree = true) (hs : s.Hea
   · obtain ⟨p, hp, hh1, hwk, _⟩ := parent_of hw hh h0
     have hph : p.hash = h.parent := (hdrOf_some hp).2
     refine ⟨p, req + 1, ?_⟩
-    simp [pollerPrev, h0, Source.getHeader, hs.1 req, hs.2 h.parent, hp, checkBuildsOn, hph, hh1, hwk]
+    simp [pollerPrev, isGenesisHeader, h0, Source.getHeader, hs.1, hs.2.1 h.parent, hp, checkBuildsOn_tree hw hs.2.2 hh h0 hp]
 
 theorem findDiffF_complete {s : Source} (hw : wfTree s.tree = true) (hg : oneGenesis s.tree = true)
     (hs : s.Healthy) {c : Cache} (hc : CacheOk s.tree c) :
@@ -716,12 +764,13 @@ theorem findDiffF_complete {s : Source} (hw : wfTree s.tree = true) (hg : oneGen
   | succ n ih =>
     intro cur prev req hcur hprev hlt
     unfold findDiffF
-    by_cases heq : (cur.hash == prev.hash) = true
+    gen_norm
+    by_cases heq : cur.hash = prev.hash
     · simp only [heq, if_true]; exact ⟨_, _, rfl⟩
-    · have hne : cur ≠ prev := by intro h; subst h; simp at heq
+    · have hne : cur ≠ prev := by intro h; subst h; exact heq rfl
       have hnz : ¬ (cur.height = 0 ∧ prev.height = 0) := fun ⟨a, b⟩ =>
         hne (oneGenesis_eq hg (mem_of_inTree hcur) (mem_of_inTree hprev) a b)
-      simp only [heq, Bool.false_eq_true, if_false]
+      simp only [heq, if_false]
       by_cases hle : cur.height ≤ prev.height
       · obtain ⟨prev', req1, hstep⟩ := lookUpPrev_complete hw hs c req hprev (by omega)
         obtain ⟨hprev', _, hhp⟩ := lookUpPrev_spec hw hc hprev hstep
@@ -750,7 +799,7 @@ theorem findDiff_complete {s : Source} (hw : wfTree s.tree = true) (hg : oneGene
 theorem getBlock_healthy {s : Source} (hs : s.Healthy) (req : Nat) {b : Hdr} (hb : InTree s.tree b) :
     s.getBlock req b = .ok () := by
   unfold InTree at hb
-  simp [Source.getBlock, hs.1 req, hs.2 b.hash, hb]
+  simp [Source.getBlock, hs.1, hs.2.1 b.hash, hb]
 
 theorem fetchPrefix_healthy {s : Source} (hs : s.Healthy) : ∀ (bs : List Hdr) (req : Nat),
     (∀ b ∈ bs, InTree s.tree b) → fetchPrefix s req bs = bs.length := by
@@ -829,12 +878,16 @@ theorem resolveLocator_spec {s : Source} (hw : wfTree s.tree = true) {b : Hdr} (
 /-- what the first loop of synchronize_listeners establishes for one listener -/
 def ListenerOk (t : Tree) (best : Hdr) (mostLen : Nat) (bl : Hdr × Locator) (p : Option Hdr × List Notif) : Prop :=
   ∃ common dconn, p.1 = some common ∧ InTree t common ∧ anc t best = dconn ++ anc t common ∧
-    dconn.length ≤ mostLen ∧ applyNotifs t (anc t bl.1) p.2 = some (anc t common)
+    dconn.length ≤ mostLen ∧ applyNotifs t (anc t bl.1) p.2 = some (anc t common) ∧
+    common ∈ anc t bl.1 ∧ p.2 = (if common = bl.1 then [] else [Notif.disconnected common.hash common.height])
 
 theorem ListenerOk.mono {t : Tree} {best : Hdr} {m m' : Nat} (h : m ≤ m') {bl : Hdr × Locator}
     {p : Option Hdr × List Notif} (hl : ListenerOk t best m bl p) : ListenerOk t best m' bl p := by
   obtain ⟨common, dconn, h1, h2, h3, h4, h5⟩ := hl
   exact ⟨common, dconn, h1, h2, h3, by omega, h5⟩
+
+theorem initDisconnects_eq (a : Hdr) (h : Nat) : initDisconnects a h = (a.hash != h) := by
+  by_cases e : a.hash = h <;> simp [initDisconnects, e]
 
 theorem phase1_most_len (s : Source) (best : Hdr) : ∀ (ls : List Locator) (c : Cache) (req : Nat) (most : List Hdr),
     most.length ≤ (phase1 s best ls c req most).most.length := by
@@ -844,6 +897,7 @@ theorem phase1_most_len (s : Source) (best : Hdr) : ∀ (ls : List Locator) (c :
   | cons l ls ih =>
     intro c req most
     unfold phase1
+    simp only [initTakesLonger, decide_eq_true_eq, gt_iff_lt]
     split
     · simp
     · rename_i d c1 req1 _
@@ -872,6 +926,7 @@ theorem phase1_spec {s : Source} (hw : wfTree s.tree = true) {best : Hdr} (hb : 
     obtain ⟨hbt, hlh, hcands⟩ := hl (b, l) List.mem_cons_self
     simp only [List.map_cons] at hok ⊢
     unfold phase1 at hok ⊢
+    simp only [initTakesLonger, decide_eq_true_eq, gt_iff_lt, initDisconnects_eq] at hok ⊢
     split at hok
     · simp at hok
     · rename_i d c1 req1 hfd
@@ -899,7 +954,7 @@ theorem phase1_spec {s : Source} (hw : wfTree s.tree = true) {best : Hdr} (hb : 
           have hlen := phase1_most_len s best (pairs.map (·.2)) (cacheBlocksDisconnected c1 true d.common) req1
             (if most.length < d.connected.length then d.connected else most)
           refine ⟨Forall2.cons ?_ i1, i2, i3⟩
-          refine ⟨d.common, d.connected, rfl, hct, hL.path, ?_, ?_⟩
+          refine ⟨d.common, d.connected, rfl, hct, hL.path, ?_, ?_, hcb, ?_⟩
           · by_cases hlt : most.length < d.connected.length
             · simp only [hlt, if_true] at hlen ⊢; exact hlen
             · simp only [hlt, if_false] at hlen ⊢; omega
@@ -910,6 +965,14 @@ theorem phase1_spec {s : Source} (hw : wfTree s.tree = true) {best : Hdr} (hb : 
             · have hne : d.common ≠ b := by intro e; rw [e] at hh; exact hh hlh.symm
               have : (d.common.hash != l.hash) = true := by simp [bne, hh]
               simp only [this, if_true, applyNotifs, apply_disconnected hw hbt hcb hne]
+          · by_cases hh : d.common.hash = l.hash
+            · have : d.common = b := inTree_hash_inj hct hbt (by rw [hh, hlh])
+              have hbe : (d.common.hash != l.hash) = false := by simp [hh]
+              rw [hbe]
+              simp [this]
+            · have hne : d.common ≠ b := by intro e; rw [e] at hh; exact hh hlh.symm
+              have : (d.common.hash != l.hash) = true := by simp [bne, hh]
+              simp only [this, if_true, hne, if_false]
 
 theorem fetchAll_spec (s : Source) : ∀ (bs : List Hdr) (req : Nat), (fetchAll s bs req).2 = req + bs.length := by
   intro bs
@@ -993,7 +1056,7 @@ theorem connectedFor_most {t : Tree} (hw : wfTree t = true) {best common cm : Hd
     rw [← hx]; exact List.mem_append_left _ hy
   subst hm
   unfold connectedFor
-  simp only [List.reverse_append, List.filter_append]
+  simp only [List.reverse_append, List.filter_append, initDelivers, gt_iff_lt]
   have f1 : extra.reverse.filter (fun b => decide (common.height < b.height)) = [] := by
     apply List.filter_eq_nil_iff.mpr
     intro y hy
